@@ -341,4 +341,705 @@ Theorem upvalue_list_inv : forall (d : value) ops,
 Proof. intros d ops Hd. apply upvalue_list_inv_from; [apply list_inv_init|exact Hd]. Qed.
 Print Assumptions upvalue_list_inv.
 
+(* ------------------------------------------------------------------------------------------ *)
+(* 2. refinement: the simulation relation                                                      *)
+(* ------------------------------------------------------------------------------------------ *)
+
+Record R (m : mstate value) (s : sstate value) : Prop := {
+  R_cur : cur m = scur s;
+  R_len : forall f, slen (fibs m f) = sslen (sfibs s f);
+  R_val : forall f i, i < slen (fibs m f) -> sdata (fibs m f) i = cellv s (scells (sfibs s f) i);
+  R_cell_lt : forall f i, i < sslen (sfibs s f) -> scells (sfibs s f) i < cnext s;
+  R_cell_inj : forall f i g j, i < sslen (sfibs s f) -> j < sslen (sfibs s g) ->
+               scells (sfibs s f) i = scells (sfibs s g) j -> f = g /\ i = j;
+  R_next : unext m = hnext s;
+  R_h_lt : forall h, h < hnext s -> handles s h < cnext s;
+  R_h_inj : forall h k, h < hnext s -> k < hnext s -> handles s h = handles s k -> h = k;
+  R_open : forall id f sl, id < unext m -> ustore m id = UOpen f sl ->
+           sl < slen (fibs m f) /\ scells (sfibs s f) sl = handles s id /\
+           In (id, sl) (openl (fibs m f));
+  R_closed : forall id v, id < unext m -> ustore m id = UClosed v ->
+             cellv s (handles s id) = v /\
+             (forall f i, i < sslen (sfibs s f) -> scells (sfibs s f) i <> handles s id);
+  R_list : forall f id sl, In (id, sl) (openl (fibs m f)) ->
+           id < unext m /\ ustore m id = UOpen f sl;
+  R_sorted : forall f, desc_sorted (openl (fibs m f)) = true
+}.
+
+Local Arguments upd : simpl never.
+
+Ltac projs :=
+  cbn [sdata slen openl fibs cur ustore unext scells sslen sfibs scur cellv cnext handles hnext
+       fst snd] in *.
+
+Ltac upd_cases :=
+  unfold upd in *;
+  repeat (match goal with
+          | |- context[Nat.eqb ?a ?b] => destruct (Nat.eqb_spec a b)
+          | H : context[Nat.eqb ?a ?b] |- _ => destruct (Nat.eqb_spec a b)
+          end; projs).
+
+Ltac vsubst :=
+  repeat match goal with H : ?x = ?y |- _ => is_var x; is_var y; subst x end.
+
+(* instantiate a hypothesis [H : forall f i, i < _ -> P (scells (sf f) i)] at every cell in sight *)
+Ltac inst_cells H :=
+  repeat match goal with
+         | |- context[scells (?sf ?f) ?i] =>
+             lazymatch goal with
+             | _ : i < sslen (sf f) -> _ |- _ => fail
+             | _ => pose proof (H f i)
+             end
+         | _ : context[scells (?sf ?f) ?i] |- _ =>
+             lazymatch goal with
+             | _ : i < sslen (sf f) -> _ |- _ => fail
+             | _ => pose proof (H f i)
+             end
+         end.
+
+Lemma R_init : forall d : value, R (m_init d) (s_init d).
+Proof.
+  intros d. constructor; cbn; intros; try reflexivity; try lia; try contradiction.
+Qed.
+
+Lemma R_list_inv : forall m s, R m s -> list_inv m.
+Proof.
+  intros m s HR f. apply open_list_ok_iff. split; [apply (R_sorted _ _ HR)|].
+  intros [id sl] He. destruct (R_list _ _ HR f id sl He) as [Hid Hu].
+  destruct (R_open _ _ HR id f sl Hid Hu) as [Hlt _]. exact Hlt.
+Qed.
+
+Lemma R_push : forall m s v, R m s -> R (fst (step m (Push v))) (fst (sstep s (Push v))).
+Proof.
+  intros [mf mc mu mn] [sf sc cv cn hd hn] v HR.
+  destruct HR as [Hcur Hlen Hval Hclt Hcinj Hnext Hhlt Hhinj Hopen Hclosed Hlist Hsorted].
+  cbn [step sstep]. unfold cfib, csfib, set_fib. projs. subst sc hn.
+  pose proof (Hlen mc) as Hlc.
+  constructor; projs.
+  - reflexivity.
+  - intros f. pose proof (Hlen f) as Hlf. upd_cases; vsubst; lia.
+  - intros f i Hi. pose proof (Hlen f) as Hlf.
+    upd_cases; vsubst; inst_cells Hclt; try reflexivity; try lia; apply Hval; lia.
+  - intros f i Hi. upd_cases; vsubst; inst_cells Hclt; lia.
+  - intros f i g j Hi Hj He.
+    upd_cases; vsubst; inst_cells Hclt; try lia.
+    + destruct (Hcinj mc i mc j) as [_ Hij]; try assumption; lia.
+    + destruct (Hcinj mc i g j) as [Hfg _]; try assumption; try lia; try congruence.
+    + destruct (Hcinj f i mc j) as [Hfg _]; try assumption; try lia; try congruence.
+    + apply Hcinj; assumption.
+  - reflexivity.
+  - intros h Hh. specialize (Hhlt h Hh). lia.
+  - exact Hhinj.
+  - intros id f sl Hid Hu. destruct (Hopen id f sl Hid Hu) as (Ha & Hb & Hc).
+    pose proof (Hlen f) as Hlf.
+    upd_cases; vsubst; repeat split; try assumption; try lia.
+  - intros id w Hid Hu. destruct (Hclosed id w Hid Hu) as [Ha Hb].
+    specialize (Hhlt id Hid). split.
+    + upd_cases; [lia|exact Ha].
+    + intros f i Hi. upd_cases; vsubst; try lia; apply Hb; lia.
+  - intros f id sl Hin. upd_cases; vsubst; apply Hlist; exact Hin.
+  - intros f. upd_cases; vsubst; apply Hsorted.
+Qed.
+
+Lemma R_write_slot : forall m s f i v, R m s -> i < slen (fibs m f) ->
+  R (set_fib m f (mkFiber (upd (sdata (fibs m f)) i v) (slen (fibs m f)) (openl (fibs m f))))
+    (set_cell s (scells (sfibs s f) i) v).
+Proof.
+  intros [mf mc mu mn] [sf sc cv cn hd hn] f0 i0 v HR Hi0.
+  destruct HR as [Hcur Hlen Hval Hclt Hcinj Hnext Hhlt Hhinj Hopen Hclosed Hlist Hsorted].
+  unfold set_fib, set_cell. projs. subst sc hn.
+  pose proof (Hlen f0) as Hl0.
+  constructor; projs.
+  - reflexivity.
+  - intros f. pose proof (Hlen f) as Hlf. upd_cases; vsubst; lia.
+  - intros f i Hi. pose proof (Hlen f) as Hlf.
+    upd_cases; vsubst; try reflexivity; try lia; try (apply Hval; lia).
+    + destruct (Hcinj f0 i f0 i0) as [_ Hij]; try assumption; lia.
+    + destruct (Hcinj f i f0 i0) as [Hfg _]; try assumption; try lia; try congruence.
+  - exact Hclt.
+  - exact Hcinj.
+  - reflexivity.
+  - exact Hhlt.
+  - exact Hhinj.
+  - intros id f sl Hid Hu. destruct (Hopen id f sl Hid Hu) as (Ha & Hb & Hc).
+    upd_cases; vsubst; repeat split; assumption.
+  - intros id w Hid Hu. destruct (Hclosed id w Hid Hu) as [Ha Hb]. split; [|exact Hb].
+    upd_cases; [|exact Ha]. exfalso. apply (Hb f0 i0); [lia|congruence].
+  - intros f id sl Hin. upd_cases; vsubst; apply Hlist; exact Hin.
+  - intros f. upd_cases; vsubst; apply Hsorted.
+Qed.
+
+Lemma R_write_closed : forall m s id v w, R m s -> id < unext m -> ustore m id = UClosed w ->
+  R (mkM (fibs m) (cur m) (upd (ustore m) id (UClosed v)) (unext m))
+    (set_cell s (handles s id) v).
+Proof.
+  intros [mf mc mu mn] [sf sc cv cn hd hn] id0 v w HR Hid0 Hu0.
+  destruct HR as [Hcur Hlen Hval Hclt Hcinj Hnext Hhlt Hhinj Hopen Hclosed Hlist Hsorted].
+  unfold set_cell. projs. subst sc hn.
+  destruct (Hclosed id0 w Hid0 Hu0) as [Ha0 Hb0].
+  constructor; projs.
+  - reflexivity.
+  - exact Hlen.
+  - intros f i Hi. pose proof (Hlen f) as Hlf. upd_cases; [|apply Hval; exact Hi].
+    exfalso. apply (Hb0 f i); [lia|assumption].
+  - exact Hclt.
+  - exact Hcinj.
+  - reflexivity.
+  - exact Hhlt.
+  - exact Hhinj.
+  - intros id f sl Hid Hu. upd_cases; [discriminate|]. apply Hopen; assumption.
+  - intros id u Hid Hu. unfold upd in Hu. destruct (Nat.eqb_spec id id0) as [Hidd|Hidd].
+    + subst id0. inversion Hu; subst u. split; [|exact Hb0].
+      unfold upd. rewrite Nat.eqb_refl. reflexivity.
+    + destruct (Hclosed id u Hid Hu) as [Ha Hb]. split; [|exact Hb].
+      unfold upd. destruct (Nat.eqb_spec (hd id) (hd id0)) as [Hh|Hh]; [|exact Ha].
+      exfalso. apply Hidd. apply Hhinj; assumption.
+  - intros f id sl Hin. destruct (Hlist f id sl Hin) as [Ha Hb]. split; [exact Ha|].
+    upd_cases; vsubst; [congruence|exact Hb].
+  - exact Hsorted.
+Qed.
+
+Lemma R_switch : forall m s f, R m s ->
+  R (mkM (fibs m) f (ustore m) (unext m))
+    (mkS (sfibs s) f (cellv s) (cnext s) (handles s) (hnext s)).
+Proof.
+  intros m s f HR.
+  destruct HR as [Hcur Hlen Hval Hclt Hcinj Hnext Hhlt Hhinj Hopen Hclosed Hlist Hsorted].
+  constructor; projs; try assumption; reflexivity.
+Qed.
+
+Lemma R_capture_new : forall m s loc, R m s -> loc < slen (cfib m) ->
+  snd (capture_in (openl (cfib m)) loc (unext m)) = unext m ->
+  (forall h, h < hnext s -> handles s h <> scells (csfib s) loc) ->
+  R (mkM (upd (fibs m) (cur m)
+              (mkFiber (sdata (cfib m)) (slen (cfib m))
+                       (fst (capture_in (openl (cfib m)) loc (unext m)))))
+         (cur m) (upd (ustore m) (unext m) (UOpen (cur m) loc)) (S (unext m)))
+    (mkS (sfibs s) (scur s) (cellv s) (cnext s)
+         (upd (handles s) (hnext s) (scells (csfib s) loc)) (S (hnext s))).
+Proof.
+  intros [mf mc mu mn] [sf sc cv cn hd hn] loc HR Hloc Hk Hfind.
+  destruct HR as [Hcur Hlen Hval Hclt Hcinj Hnext Hhlt Hhinj Hopen Hclosed Hlist Hsorted].
+  unfold cfib, csfib in *. projs. subst sc hn.
+  pose proof (capture_in_In (openl (mf mc)) loc mn) as HIn.
+  pose proof (capture_in_sorted (openl (mf mc)) loc mn (Hsorted mc)) as HS.
+  rewrite Hk in HIn.
+  set (l' := fst (capture_in (openl (mf mc)) loc mn)) in *.
+  pose proof (Hlen mc) as Hlc.
+  constructor; projs.
+  - reflexivity.
+  - intros f. pose proof (Hlen f) as Hlf. upd_cases; vsubst; lia.
+  - intros f i Hi. upd_cases; vsubst; apply Hval; exact Hi.
+  - exact Hclt.
+  - exact Hcinj.
+  - reflexivity.
+  - intros h Hh. upd_cases; [apply Hclt; lia|apply Hhlt; lia].
+  - intros h k Hh Hk' He. upd_cases; vsubst; try lia.
+    + exfalso. apply (Hfind k); [lia|congruence].
+    + exfalso. apply (Hfind h); [lia|congruence].
+    + apply Hhinj; lia.
+  - intros id f sl Hid Hu. unfold upd in Hu. destruct (Nat.eqb_spec id mn) as [Hidd|Hidd].
+    + subst id. inversion Hu; subst f sl. unfold upd. rewrite !Nat.eqb_refl. projs.
+      repeat split; [lia|]. apply HIn. left. reflexivity.
+    + destruct (Hopen id f sl) as (Ha & Hb & Hc); [lia|exact Hu|].
+      unfold upd. destruct (Nat.eqb_spec id mn) as [Hx|_]; [contradiction|].
+      destruct (Nat.eqb_spec f mc) as [Hf|Hf]; projs; vsubst; repeat split; try assumption.
+      apply HIn. right. exact Hc.
+  - intros id w Hid Hu. upd_cases; vsubst; [discriminate|]. apply Hclosed; [lia|exact Hu].
+  - intros f id sl Hin. unfold upd in Hin |- *.
+    destruct (Nat.eqb_spec f mc) as [Hf|Hf]; projs.
+    + subst f. apply HIn in Hin. destruct Hin as [He|Hin].
+      * inversion He; subst id sl. rewrite Nat.eqb_refl. split; [lia|reflexivity].
+      * destruct (Hlist mc id sl Hin) as [Ha Hb].
+        destruct (Nat.eqb_spec id mn) as [Hx|_]; [lia|]. split; [lia|exact Hb].
+    + destruct (Hlist f id sl Hin) as [Ha Hb].
+      destruct (Nat.eqb_spec id mn) as [Hx|_]; [lia|]. split; [lia|exact Hb].
+  - intros f. upd_cases; vsubst; [exact HS|apply Hsorted].
+Qed.
+
+Lemma R_close_trunc : forall m s idx, R m s -> idx <= slen (cfib m) ->
+  R (close_trunc m idx idx) (set_sfib s (mkSF (scells (csfib s)) idx)).
+Proof.
+  intros [mf mc mu mn] [sf sc cv cn hd hn] idx HR Hidx.
+  destruct HR as [Hcur Hlen Hval Hclt Hcinj Hnext Hhlt Hhinj Hopen Hclosed Hlist Hsorted].
+  unfold close_trunc, set_sfib, cfib, csfib in *. projs. subst sc hn.
+  pose proof (close_from_list (sdata (mf mc)) (openl (mf mc)) idx mu (Hsorted mc)) as HL.
+  pose proof (close_from_sorted (sdata (mf mc)) (openl (mf mc)) idx mu (Hsorted mc)) as HS.
+  pose proof (close_from_store (sdata (mf mc)) (openl (mf mc)) idx mu (Hsorted mc)) as HU.
+  destruct (close_from (sdata (mf mc)) (openl (mf mc)) idx mu) as [l' us']. projs.
+  pose proof (Hlen mc) as Hlc.
+  (* the new fibers: same cells / data, shorter or equal *)
+  set (mf' := upd mf mc (mkFiber (sdata (mf mc)) idx l')).
+  set (sf' := upd sf mc (mkSF (scells (sf mc)) idx)).
+  assert (Hsd : forall f, sdata (mf' f) = sdata (mf f)).
+  { intros f. unfold mf'. upd_cases; vsubst; reflexivity. }
+  assert (Hsc : forall f, scells (sf' f) = scells (sf f)).
+  { intros f. unfold sf'. upd_cases; vsubst; reflexivity. }
+  assert (Hle : forall f, sslen (sf' f) <= sslen (sf f)).
+  { intros f. unfold sf'. upd_cases; vsubst; lia. }
+  assert (Hlen' : forall f, slen (mf' f) = sslen (sf' f)).
+  { intros f. unfold mf', sf'. pose proof (Hlen f). upd_cases; vsubst; lia. }
+  assert (Hmc : sslen (sf' mc) = idx).
+  { unfold sf'. unfold upd. rewrite Nat.eqb_refl. reflexivity. }
+  assert (Hol_c : openl (mf' mc) = l').
+  { unfold mf'. unfold upd. rewrite Nat.eqb_refl. reflexivity. }
+  assert (Hol_o : forall f, f <> mc -> openl (mf' f) = openl (mf f)).
+  { intros f Hf. unfold mf'. unfold upd. destruct (Nat.eqb_spec f mc); [contradiction|reflexivity]. }
+  assert (Hslen_o : forall f, f <> mc -> slen (mf' f) = slen (mf f)).
+  { intros f Hf. unfold mf'. unfold upd. destruct (Nat.eqb_spec f mc); [contradiction|reflexivity]. }
+  clearbody mf' sf'.
+  constructor; projs.
+  - reflexivity.
+  - exact Hlen'.
+  - intros f i Hi. rewrite Hsd, Hsc. apply Hval.
+    specialize (Hle f). specialize (Hlen f). specialize (Hlen' f). lia.
+  - intros f i Hi. rewrite Hsc. apply Hclt. specialize (Hle f). lia.
+  - intros f i g j Hi Hj He. rewrite !Hsc in He.
+    apply Hcinj; [specialize (Hle f); lia|specialize (Hle g); lia|exact He].
+  - reflexivity.
+  - exact Hhlt.
+  - exact Hhinj.
+  - intros id f sl Hid Hu.
+    destruct (HU id) as [[Heq Hlt]|[s0 [Hin0 [Hge0 Heq]]]]; [|congruence].
+    rewrite Heq in Hu. destruct (Hopen id f sl Hid Hu) as (Ha & Hb & Hc).
+    rewrite Hsc. destruct (Nat.eq_dec f mc) as [Hf|Hf].
+    + subst f. specialize (Hlt sl Hc). rewrite Hol_c.
+      split; [rewrite Hlen', Hmc; exact Hlt|]. split; [exact Hb|].
+      apply HL. split; [exact Hc|exact Hlt].
+    + rewrite (Hol_o f Hf), (Hslen_o f Hf). repeat split; assumption.
+  - intros id w Hid Hu.
+    destruct (HU id) as [[Heq Hlt]|[s0 [Hin0 [Hge0 Heq]]]].
+    + rewrite Heq in Hu. destruct (Hclosed id w Hid Hu) as [Ha Hb]. split; [exact Ha|].
+      intros f i Hi. rewrite Hsc. apply Hb. specialize (Hle f). lia.
+    + rewrite Heq in Hu. inversion Hu; subst w.
+      destruct (Hlist mc id s0 Hin0) as [_ Hu0].
+      destruct (Hopen id mc s0 Hid Hu0) as (Ha & Hb & Hc).
+      split.
+      * rewrite <- Hb. symmetry. apply Hval. exact Ha.
+      * intros f i Hi He. rewrite Hsc in He. rewrite <- Hb in He.
+        destruct (Hcinj f i mc s0) as [Hf Hi0];
+          [specialize (Hle f); lia|lia|exact He|].
+        subst f i. lia.
+  - intros f id sl Hin. destruct (Nat.eq_dec f mc) as [Hf|Hf].
+    + subst f. rewrite Hol_c in Hin. apply HL in Hin. destruct Hin as [Hin Hlt]. cbn [snd] in Hlt.
+      destruct (Hlist mc id sl Hin) as [Ha Hb]. split; [exact Ha|].
+      destruct (HU id) as [[Heq _]|[s0 [Hin0 [Hge0 _]]]]; [congruence|].
+      destruct (Hlist mc id s0 Hin0) as [_ Hb0]. rewrite Hb in Hb0. inversion Hb0. lia.
+    + rewrite (Hol_o f Hf) in Hin.
+      destruct (Hlist f id sl Hin) as [Ha Hb]. split; [exact Ha|].
+      destruct (HU id) as [[Heq _]|[s0 [Hin0 [Hge0 _]]]]; [congruence|].
+      destruct (Hlist mc id s0 Hin0) as [_ Hb0]. rewrite Hb in Hb0. inversion Hb0. contradiction.
+  - intros f. destruct (Nat.eq_dec f mc) as [Hf|Hf].
+    + subst f. rewrite Hol_c. exact HS.
+    + rewrite (Hol_o f Hf). apply Hsorted.
+Qed.
+
+Lemma shrink_is_close_trunc : forall (m : mstate value) n,
+  (forall e, In e (openl (cfib m)) -> snd e < n) ->
+  set_fib m (cur m) (mkFiber (sdata (cfib m)) n (openl (cfib m))) = close_trunc m n n.
+Proof.
+  intros m n Hall. unfold close_trunc. rewrite (close_from_noop _ _ _ _ Hall). reflexivity.
+Qed.
+
+(* ---- find_handle ---- *)
+Lemma find_handle_some : forall h n c k, find_handle h n c = Some k -> k < n /\ h k = c.
+Proof.
+  intros h n c k. induction n as [|n IH]; cbn [find_handle]; [discriminate|].
+  destruct (Nat.eqb_spec (h n) c) as [He|Hne].
+  - intros Hs. inversion Hs; subst k. split; [lia|exact He].
+  - intros Hs. destruct (IH Hs) as [Ha Hb]. split; [lia|exact Hb].
+Qed.
+
+Lemma find_handle_none : forall h n c, find_handle h n c = None -> forall k, k < n -> h k <> c.
+Proof.
+  intros h n c. induction n as [|n IH]; cbn [find_handle]; intros Hn k Hk; [lia|].
+  destruct (Nat.eqb_spec (h n) c) as [He|Hne]; [discriminate|].
+  destruct (Nat.eq_dec k n) as [Hkn|Hkn]; [subst k; exact Hne|]. apply IH; [exact Hn|lia].
+Qed.
+
+Lemma find_handle_none_intro : forall h n c,
+  (forall k, k < n -> h k <> c) -> find_handle h n c = None.
+Proof.
+  intros h n c Hno. destruct (find_handle h n c) as [k|] eqn:E; [|reflexivity].
+  apply find_handle_some in E. destruct E as [Ha Hb]. exfalso. exact (Hno k Ha Hb).
+Qed.
+
+Lemma find_handle_unique : forall h n c k,
+  (forall a b, a < n -> b < n -> h a = h b -> a = b) ->
+  k < n -> h k = c -> find_handle h n c = Some k.
+Proof.
+  intros h n c k Hinj Hk Hc. destruct (find_handle h n c) as [k'|] eqn:E.
+  - apply find_handle_some in E. destruct E as [Ha Hb]. f_equal. apply Hinj; congruence.
+  - exfalso. exact (find_handle_none _ _ _ E k Hk Hc).
+Qed.
+
+(* the discipline, read as a fact about the open list *)
+Lemma disc_pop_below : forall m s, R m s -> disc_ok m (@Pop value) = true ->
+  forall e, In e (openl (cfib m)) -> snd e < slen (cfib m) - 1.
+Proof.
+  intros m s HR Hd [id sl] He. cbn [snd].
+  destruct (R_list _ _ HR (cur m) id sl He) as [Hid Hu].
+  destruct (R_open _ _ HR id (cur m) sl Hid Hu) as [Hlt _]. fold (cfib m) in Hlt.
+  cbn in Hd. apply negb_true_iff in Hd. unfold slot_open in Hd.
+  assert (Hne : sl <> slen (cfib m) - 1).
+  { intros Heq.
+    assert (Hex : existsb (fun e0 => snd e0 =? slen (cfib m) - 1) (openl (cfib m)) = true).
+    { apply existsb_exists. exists (id, sl). split; [exact He|]. apply Nat.eqb_eq. exact Heq. }
+    congruence. }
+  lia.
+Qed.
+
+(* ---- the key lemma: one step ---- *)
+Lemma step_sim : forall m s o, R m s -> disc_ok m o = true ->
+  snd (step m o) = snd (sstep s o) /\ R (fst (step m o)) (fst (sstep s o)).
+Proof.
+  intros m s o HR Hd.
+  pose proof (R_cur _ _ HR) as Hc.
+  pose proof (R_len _ _ HR (cur m)) as Hl.
+  pose proof (R_next _ _ HR) as Hn.
+  destruct o as [v| |i|i v|loc| |base|id|id v|n|f].
+  - (* Push *)
+    split; [reflexivity|]. apply R_push. exact HR.
+  - (* Pop *)
+    cbn [step sstep]. unfold csfib. rewrite <- Hc, <- Hl. fold (cfib m).
+    destruct (Nat.eqb_spec (slen (cfib m)) 0) as [Hz|Hnz]; cbn [fst snd]; [split; [reflexivity|exact HR]|].
+    split; [reflexivity|].
+    rewrite (shrink_is_close_trunc m _ (disc_pop_below _ _ HR Hd)).
+    replace (sfibs s (cur m)) with (csfib s) by (unfold csfib; rewrite Hc; reflexivity).
+    apply R_close_trunc; [exact HR|lia].
+  - (* GetSlot *)
+    cbn [step sstep]. unfold csfib. rewrite <- Hc, <- Hl. fold (cfib m).
+    destruct (Nat.ltb_spec i (slen (cfib m))) as [Hlt|Hge]; cbn [fst snd]; (split; [|exact HR]); [|reflexivity].
+    f_equal. apply (R_val _ _ HR). exact Hlt.
+  - (* SetSlot *)
+    cbn [step sstep]. unfold csfib. rewrite <- Hc, <- Hl. fold (cfib m).
+    destruct (Nat.ltb_spec i (slen (cfib m))) as [Hlt|Hge]; cbn [fst snd]; (split; [reflexivity|]); [|exact HR].
+    apply (R_write_slot _ _ (cur m) i v HR Hlt).
+  - (* Capture *)
+    cbn [step sstep]. unfold csfib. rewrite <- Hc, <- Hl. fold (cfib m).
+    destruct (Nat.ltb_spec loc (slen (cfib m))) as [Hlt|Hge]; cbn [fst snd]; [|split; [reflexivity|exact HR]].
+    unfold capture.
+    pose proof (capture_in_cases (openl (cfib m)) loc (unext m)) as Hcases.
+    pose proof (capture_in_reuse (openl (cfib m)) loc (unext m)) as Hreuse.
+    pose proof (R_capture_new _ _ loc HR Hlt) as Hnew. rewrite <- Hc in Hnew.
+    destruct (capture_in (openl (cfib m)) loc (unext m)) as [l' k]. cbn [fst snd] in *.
+    destruct Hcases as [Hk|Hin].
+    + (* a new upvalue *)
+      subst k. rewrite Nat.eqb_refl. cbn [fst snd].
+      assert (Hno : forall id, ~ In (id, loc) (openl (cfib m))).
+      { intros id Hin. pose proof (Hreuse id (R_sorted _ _ HR (cur m)) Hin) as Hid.
+        destruct (R_list _ _ HR (cur m) id loc Hin) as [Hlt' _]. lia. }
+      assert (Hfind : forall h, h < hnext s -> handles s h <> scells (sfibs s (cur m)) loc).
+      { intros h Hh Heq. rewrite <- Hn in Hh.
+        destruct (ustore m h) as [g sl|w] eqn:Eu.
+        - destruct (R_open _ _ HR h g sl Hh Eu) as (Ha & Hb & Hin).
+          rewrite <- Hb in Heq.
+          destruct (R_cell_inj _ _ HR g sl (cur m) loc) as [Hg Hsl];
+            [rewrite <- (R_len _ _ HR); exact Ha|rewrite <- Hl; exact Hlt|exact Heq|].
+          subst g sl. exact (Hno h Hin).
+        - destruct (R_closed _ _ HR h w Hh Eu) as [_ Hb].
+          apply (Hb (cur m) loc); [rewrite <- Hl; exact Hlt|symmetry; exact Heq]. }
+      rewrite (find_handle_none_intro _ _ _ Hfind). cbn [fst snd].
+      split; [rewrite Hn; reflexivity|].
+      replace (sfibs s (cur m)) with (csfib s) in * by (unfold csfib; rewrite Hc; reflexivity).
+      apply Hnew; [reflexivity|exact Hfind].
+    + (* an existing one *)
+      destruct (R_list _ _ HR (cur m) k loc Hin) as [Hk Hu].
+      destruct (Nat.eqb_spec k (unext m)) as [Hx|_]; [lia|]. cbn [fst snd].
+      destruct (R_open _ _ HR k (cur m) loc Hk Hu) as (_ & Hb & _).
+      rewrite (find_handle_unique (handles s) (hnext s) _ k (R_h_inj _ _ HR)); [|lia|symmetry; exact Hb].
+      cbn [fst snd]. split; [reflexivity|exact HR].
+  - (* CloseTop *)
+    cbn [step sstep]. unfold csfib. rewrite <- Hc, <- Hl. fold (cfib m).
+    destruct (Nat.eqb_spec (slen (cfib m)) 0) as [Hz|Hnz]; cbn [fst snd]; [split; [reflexivity|exact HR]|].
+    split; [reflexivity|].
+    replace (sfibs s (cur m)) with (csfib s) by (unfold csfib; rewrite Hc; reflexivity).
+    apply R_close_trunc; [exact HR|lia].
+  - (* ReturnFrame *)
+    cbn [step sstep]. unfold csfib. rewrite <- Hc, <- Hl. fold (cfib m).
+    destruct (Nat.leb_spec base (slen (cfib m))) as [Hle|Hgt]; cbn [fst snd]; [|split; [reflexivity|exact HR]].
+    split; [reflexivity|].
+    replace (sfibs s (cur m)) with (csfib s) by (unfold csfib; rewrite Hc; reflexivity).
+    apply R_close_trunc; [exact HR|exact Hle].
+  - (* ReadUp *)
+    cbn [step sstep]. rewrite <- Hn.
+    destruct (Nat.ltb_spec id (unext m)) as [Hlt|Hge]; cbn [fst snd]; [|split; [reflexivity|exact HR]].
+    destruct (ustore m id) as [g sl|w] eqn:Eu; cbn [fst snd]; (split; [|exact HR]); f_equal.
+    + destruct (R_open _ _ HR id g sl Hlt Eu) as (Ha & Hb & _).
+      rewrite <- Hb. apply (R_val _ _ HR). exact Ha.
+    + destruct (R_closed _ _ HR id w Hlt Eu) as [Ha _]. symmetry. exact Ha.
+  - (* WriteUp *)
+    cbn [step sstep]. rewrite <- Hn.
+    destruct (Nat.ltb_spec id (unext m)) as [Hlt|Hge]; cbn [fst snd]; [|split; [reflexivity|exact HR]].
+    destruct (ustore m id) as [g sl|w] eqn:Eu; cbn [fst snd]; (split; [reflexivity|]).
+    + destruct (R_open _ _ HR id g sl Hlt Eu) as (Ha & Hb & _).
+      rewrite <- Hb. apply (R_write_slot _ _ g sl v HR Ha).
+    + apply (R_write_closed _ _ id v w HR Hlt Eu).
+  - (* Truncate *)
+    cbn [step sstep]. unfold csfib. rewrite <- Hc, <- Hl. fold (cfib m).
+    destruct (Nat.leb_spec n (slen (cfib m))) as [Hle|Hgt]; cbn [fst snd]; [|split; [reflexivity|exact HR]].
+    split; [reflexivity|].
+    unfold disc_ok in Hd. pose proof (proj1 (forallb_lt_iff _ _) Hd) as Hd'.
+    rewrite (shrink_is_close_trunc m _ Hd').
+    replace (sfibs s (cur m)) with (csfib s) by (unfold csfib; rewrite Hc; reflexivity).
+    apply R_close_trunc; [exact HR|exact Hle].
+  - (* SwitchFiber *)
+    cbn [step sstep fst snd]. split; [reflexivity|]. apply R_switch. exact HR.
+Qed.
+
+Theorem upvalues_refine_cells_from : forall ops m s,
+  R m s -> disciplined m ops = true -> run m ops = srun s ops.
+Proof.
+  induction ops as [|o r IH]; intros m s HR Hd; [reflexivity|].
+  cbn [disciplined] in Hd. apply andb_true_iff in Hd. destruct Hd as [Ho Hr].
+  destruct (step_sim m s o HR Ho) as [Hobs HR'].
+  cbn [run srun]. destruct (step m o) as [m' b]. destruct (sstep s o) as [s' b'].
+  cbn [fst snd] in *. subst b'. f_equal. apply IH; assumption.
+Qed.
+Print Assumptions upvalues_refine_cells_from.
+
+Theorem upvalues_refine_cells : forall (d : value) ops,
+  disciplined (m_init d) ops = true -> run (m_init d) ops = srun (s_init d) ops.
+Proof. intros d ops Hd. apply upvalues_refine_cells_from; [apply R_init|exact Hd]. Qed.
+Print Assumptions upvalues_refine_cells.
+
+(* the Spec state reached, to speak about R after a run *)
+Fixpoint srun_state (s : sstate value) (ops : list (op value)) : sstate value :=
+  match ops with
+  | [] => s
+  | o :: r => srun_state (fst (sstep s o)) r
+  end.
+
+Lemma R_run : forall ops m s,
+  R m s -> disciplined m ops = true -> R (run_state m ops) (srun_state s ops).
+Proof.
+  induction ops as [|o r IH]; intros m s HR Hd; [exact HR|].
+  cbn [disciplined] in Hd. apply andb_true_iff in Hd. destruct Hd as [Ho Hr].
+  destruct (step_sim m s o HR Ho) as [_ HR'].
+  cbn [run_state srun_state]. apply IH; assumption.
+Qed.
+
+(* ------------------------------------------------------------------------------------------ *)
+(* 3. corollaries at the level of M                                                             *)
+(* ------------------------------------------------------------------------------------------ *)
+
+Lemma capture_snd : forall (st : mstate value) loc,
+  snd (capture st loc) = snd (capture_in (openl (cfib st)) loc (unext st)).
+Proof.
+  intros st loc. unfold capture.
+  destruct (capture_in (openl (cfib st)) loc (unext st)) as [l' k].
+  destruct (k =? unext st); reflexivity.
+Qed.
+
+Lemma capture_facts : forall (st : mstate value) loc,
+  cur (fst (capture st loc)) = cur st /\
+  slen (cfib (fst (capture st loc))) = slen (cfib st) /\
+  In (snd (capture st loc), loc) (openl (cfib (fst (capture st loc)))).
+Proof.
+  intros st loc. unfold capture.
+  pose proof (capture_in_cases (openl (cfib st)) loc (unext st)) as Hcases.
+  pose proof (capture_in_In (openl (cfib st)) loc (unext st)) as HIn.
+  destruct (capture_in (openl (cfib st)) loc (unext st)) as [l' k]. cbn [fst snd] in *.
+  destruct (Nat.eqb_spec k (unext st)) as [Hk|Hk]; cbn [fst snd].
+  - unfold cfib. cbn [fibs cur]. unfold upd. rewrite Nat.eqb_refl. cbn [slen openl].
+    split; [reflexivity|]. split; [reflexivity|]. apply HIn. left. reflexivity.
+  - split; [reflexivity|]. split; [reflexivity|].
+    destruct Hcases as [Hx|Hin]; [contradiction|exact Hin].
+Qed.
+
+Lemma close_trunc_facts : forall (st : mstate value) idx n,
+  cur (close_trunc st idx n) = cur st /\
+  unext (close_trunc st idx n) = unext st /\
+  slen (cfib (close_trunc st idx n)) = n /\
+  openl (cfib (close_trunc st idx n)) =
+    fst (close_from (sdata (cfib st)) (openl (cfib st)) idx (ustore st)).
+Proof.
+  intros st idx n. unfold close_trunc.
+  destruct (close_from (sdata (cfib st)) (openl (cfib st)) idx (ustore st)) as [l' us'].
+  unfold cfib. cbn [fibs cur unext fst]. unfold upd. rewrite Nat.eqb_refl. cbn [slen openl].
+  repeat split; reflexivity.
+Qed.
+
+Theorem capture_twice_same : forall (st : mstate value) loc,
+  let '(st1, id1) := capture st loc in
+  let '(_, id2) := capture st1 loc in id1 = id2.
+Proof.
+  intros st loc.
+  destruct (capture st loc) as [st1 id1] eqn:E1.
+  destruct (capture st1 loc) as [st2 id2] eqn:E2.
+  assert (H2 : id2 = snd (capture st1 loc)) by (rewrite E2; reflexivity).
+  rewrite capture_snd in H2. subst id2.
+  unfold capture in E1.
+  pose proof (capture_in_again (openl (cfib st)) loc (unext st)) as Hag.
+  destruct (capture_in (openl (cfib st)) loc (unext st)) as [l' k] eqn:Ek. cbn [fst snd] in Hag.
+  destruct (Nat.eqb_spec k (unext st)) as [Hk|Hk]; inversion E1; subst st1 id1.
+  - unfold cfib. cbn [fibs cur unext]. unfold upd. rewrite Nat.eqb_refl. cbn [openl].
+    rewrite Hag. reflexivity.
+  - rewrite Ek. reflexivity.
+Qed.
+Print Assumptions capture_twice_same.
+
+Theorem capture_after_close_fresh : forall m s loc v,
+  R m s -> slen (cfib m) = S loc ->
+  let '(m1, id1) := capture m loc in
+  let m2 := fst (step m1 CloseTop) in
+  let m3 := fst (step m2 (Push v)) in
+  snd (capture m3 loc) = unext m1 /\ snd (capture m3 loc) <> id1.
+Proof.
+  intros m s loc v HR Hlen.
+  assert (Hlt : loc <? slen (cfib m) = true) by (apply Nat.ltb_lt; lia).
+  destruct (step_sim m s (Capture loc) HR eq_refl) as [_ HR1].
+  pose proof (capture_facts m loc) as (Hcur1 & Hlen1 & Hin1).
+  cbn [step] in HR1. rewrite Hlt in HR1.
+  destruct (capture m loc) as [m1 id1]. cbn [fst snd] in *.
+  set (s1 := fst (sstep s (Capture loc))) in *.
+  set (m2 := fst (step m1 CloseTop)). set (m3 := fst (step m2 (Push v))).
+  destruct (R_list _ _ HR1 (cur m1) id1 loc Hin1) as [Hid1 _].
+  rewrite Hlen in Hlen1.
+  assert (Hm2 : m2 = close_trunc m1 loc loc).
+  { unfold m2. cbn [step]. rewrite Hlen1. cbn [Nat.eqb fst]. replace (S loc - 1) with loc by lia. reflexivity. }
+  destruct (close_trunc_facts m1 loc loc) as (Hc2 & Hn2 & Hl2 & Ho2). rewrite <- Hm2 in *.
+  assert (Hall : forall e, In e (openl (cfib m2)) -> snd e <> loc).
+  { intros e He. rewrite Ho2 in He.
+    apply (close_from_list _ _ _ _ (R_sorted _ _ HR1 (cur m1))) in He. lia. }
+  assert (Hfresh : snd (capture m3 loc) = unext m1).
+  { rewrite capture_snd. unfold m3. cbn [step fst]. unfold set_fib, cfib at 1 2.
+    cbn [fibs cur unext]. unfold upd at 1. rewrite Nat.eqb_refl. cbn [openl].
+    rewrite Hn2. apply capture_in_fresh. exact Hall. }
+  split; [exact Hfresh|]. rewrite Hfresh. lia.
+Qed.
+Print Assumptions capture_after_close_fresh.
+
 End UpvaluesProofs.
+
+Arguments list_inv {value} st.
+Arguments R {value} m s.
+Arguments srun_state {value} s ops.
+
+(* Inside the section `Print Assumptions` lists the section variable `value`; after `End` the
+   theorems are closed under the global context: *)
+Print Assumptions desc_sorted_nodup.
+Print Assumptions upvalue_list_inv_step.
+Print Assumptions upvalue_list_inv.
+Print Assumptions upvalues_refine_cells_from.
+Print Assumptions upvalues_refine_cells.
+Print Assumptions capture_twice_same.
+Print Assumptions capture_after_close_fresh.
+
+(* ------------------------------------------------------------------------------------------ *)
+(* concrete instances over Z                                                                    *)
+(* ------------------------------------------------------------------------------------------ *)
+Local Open Scope Z_scope.
+
+(* a disciplined program: two variables, three captures (one a reuse), a write through the upvalue,
+   a close, the slot redeclared and captured again (fresh upvalue), Pop / Truncate of uncaptured
+   slots, ReturnFrame closing the rest *)
+Definition ex_ops : list (op Z) :=
+  [Push 1; Push 2; Capture 0; Capture 1; Capture 1; WriteUp 1 7; CloseTop; Push 3; Capture 1;
+   ReadUp 1; ReadUp 2; CloseTop; Push 4; Pop; Truncate 1; ReturnFrame 0; ReadUp 0; ReadUp 2].
+
+Example ex_ops_disciplined : disciplined (m_init 0) ex_ops = true.
+Proof. vm_compute. reflexivity. Qed.
+
+Example ex_ops_obs :
+  run (m_init 0) ex_ops =
+  [ONone; ONone; OId 0%nat; OId 1%nat; OId 1%nat; ONone; ONone; ONone; OId 2%nat;
+   OVal 7; OVal 3; ONone; ONone; ONone; ONone; ONone; OVal 1; OVal 3].
+Proof. vm_compute. reflexivity. Qed.
+
+Example ex_ops_refine : run (m_init 0) ex_ops = srun (s_init 0) ex_ops.
+Proof. apply upvalues_refine_cells. exact ex_ops_disciplined. Qed.
+
+(* hypotheses of upvalue_list_inv_step / step_sim / upvalues_refine_cells_from are satisfiable by a
+   non-trivial state: the state after the first nine operations (two open upvalues, one closed) *)
+Definition ex_prefix : list (op Z) := firstn 9 ex_ops.
+
+Example ex_list_inv_hyp :
+  list_inv (run_state (m_init 0) ex_prefix) /\
+  disc_ok (run_state (m_init 0) ex_prefix) CloseTop = true /\
+  openl (fibs (run_state (m_init 0) ex_prefix) 0%nat) = [(2, 1); (0, 0)]%nat.
+Proof.
+  split; [apply upvalue_list_inv; vm_compute; reflexivity|].
+  split; vm_compute; reflexivity.
+Qed.
+
+Example ex_R_hyp :
+  R (run_state (m_init 0) ex_prefix) (srun_state (s_init 0) ex_prefix) /\
+  disciplined (run_state (m_init 0) ex_prefix) (skipn 9 ex_ops) = true.
+Proof.
+  split; [apply R_run; [apply R_init|vm_compute; reflexivity]|vm_compute; reflexivity].
+Qed.
+
+(* capture twice: concrete *)
+Example ex_capture_twice :
+  run (m_init 0) [Push 5; Capture 0%nat; Capture 0%nat] = [ONone; OId 0%nat; OId 0%nat].
+Proof. vm_compute. reflexivity. Qed.
+
+(* hypotheses of capture_after_close_fresh: the state after two pushes and a capture of slot 0 *)
+Example ex_capture_after_close_hyp :
+  let m := run_state (m_init 0) [Push 1; Push 2; Capture 0%nat] in
+  let s := srun_state (s_init 0) [Push 1; Push 2; Capture 0%nat] in
+  R m s /\ slen (cfib m) = 2%nat.
+Proof.
+  split; [apply R_run; [apply R_init|vm_compute; reflexivity]|vm_compute; reflexivity].
+Qed.
+
+Example ex_capture_after_close :
+  run (m_init 0) [Push 1; Capture 0%nat; CloseTop; Push 2; Capture 0%nat; ReadUp 0%nat; ReadUp 1%nat]
+  = [ONone; OId 0%nat; ONone; ONone; OId 1%nat; OVal 1; OVal 2].
+Proof. vm_compute. reflexivity. Qed.
+
+(* SwitchFiber is one of the operations of upvalues_refine_cells: an upvalue opened on fiber 0 is
+   written from fiber 1 (it still points INTO fiber 0's stack), fiber 0 sees the write in its slot,
+   and after the close the upvalue keeps the value. *)
+Definition switch_ops : list (op Z) :=
+  [Push 10; Capture 0%nat; SwitchFiber 1; WriteUp 0%nat 42; SwitchFiber 0; GetSlot 0%nat;
+   CloseTop; ReadUp 0%nat].
+
+Example refine_across_switch :
+  disciplined (m_init 0) switch_ops = true /\
+  run (m_init 0) switch_ops = srun (s_init 0) switch_ops /\
+  run (m_init 0) switch_ops =
+    [ONone; OId 0%nat; ONone; ONone; ONone; OVal 42; ONone; OVal 42].
+Proof. vm_compute. repeat split; reflexivity. Qed.
+
+(* ------------------------------------------------------------------------------------------ *)
+(* 4. without the discipline: unwind_stack truncates over an open upvalue                       *)
+(* ------------------------------------------------------------------------------------------ *)
+
+(* M reads the reused slot (2), S reads the cell of the captured variable (1) *)
+Theorem discipline_refuted_unwind : exists ops : list (op Z),
+  disciplined (m_init 0) ops = false /\ run (m_init 0) ops <> srun (s_init 0) ops.
+Proof.
+  exists [Push 1; Capture 0%nat; Truncate 0%nat; Push 2; ReadUp 0%nat].
+  split; [vm_compute; reflexivity|]. vm_compute. intros H. discriminate H.
+Qed.
+Print Assumptions discipline_refuted_unwind.
+
+Example discipline_unwind_obs :
+  run (m_init 0) [Push 1; Capture 0%nat; Truncate 0%nat; Push 2; ReadUp 0%nat]
+    = [ONone; OId 0%nat; ONone; ONone; OVal 2] /\
+  srun (s_init 0) [Push 1; Capture 0%nat; Truncate 0%nat; Push 2; ReadUp 0%nat]
+    = [ONone; OId 0%nat; ONone; ONone; OVal 1].
+Proof. vm_compute. split; reflexivity. Qed.
+
+Example discipline_pop_refuted : exists ops : list (op Z),
+  disciplined (m_init 0) ops = false /\ run (m_init 0) ops <> srun (s_init 0) ops.
+Proof.
+  exists [Push 1; Capture 0%nat; Pop; Push 2; ReadUp 0%nat].
+  split; [vm_compute; reflexivity|]. vm_compute. intros H. discriminate H.
+Qed.
+
+(* the open list keeps an entry at / above the stack top *)
+Theorem list_inv_refuted_unwind :
+  ~ list_inv (run_state (m_init 0) [Push 1; Capture 0%nat; Truncate 0%nat]).
+Proof.
+  intros H. specialize (H 0%nat). vm_compute in H. discriminate H.
+Qed.
+Print Assumptions list_inv_refuted_unwind.
+
+Example list_inv_unwind_state :
+  let st := run_state (m_init 0) [Push 1; Capture 0%nat; Truncate 0%nat] in
+  openl (fibs st 0%nat) = [(0, 0)]%nat /\ slen (fibs st 0%nat) = 0%nat /\
+  disciplined (m_init 0) [Push 1; Capture 0%nat; Truncate 0%nat] = false.
+Proof. vm_compute. repeat split; reflexivity. Qed.
